@@ -25,7 +25,7 @@ from sim.zygote import ZygoteClient
 PROPERTY = "C04"
 ISOLATE = True
 TIERS = {
-    "quick": {"runs": 1400, "budget_s": 110, "timeout_s": 120, "chunk": 8, "det_sample": 24, "det_runs": 120,
+    "quick": {"runs": 1400, "budget_s": 180, "timeout_s": 120, "chunk": 8, "det_sample": 24, "det_runs": 120,
               "shrink_s": 150, "shrink_execs": 300},
     "thorough": {"runs": 30000, "budget_s": 1500, "timeout_s": 240, "chunk": 8, "det_sample": 32, "det_runs": 400,
                  "shrink_s": 300, "shrink_execs": 600},
